@@ -1,5 +1,11 @@
 """C08 — string_view searches and comparisons: case generators and configuration."""
 import itertools
+import os
+
+# Sanitizer reports are not symbolized: symbolizing costs ~100 ms per report, and a defect that
+# over-reads produces thousands of crashing cases (each one is a re-forked child of the harness).
+os.environ.setdefault("ASAN_OPTIONS", "detect_leaks=0:abort_on_error=1:handle_abort=0:print_summary=0:"
+                      "allocator_may_return_null=1:symbolize=0:print_legend=0:fast_unwind_on_fatal=1")
 
 ID = "C08"
 LEVEL = "proof"
@@ -8,7 +14,11 @@ HARNESSES = [
     # plain build: guard zones readable and filled with the other argument's characters
     {"name": "main", "src": "harness.cpp", "flags": ["-O1", "-DTETL_ENABLE_CONTRACT_CHECKS=1"]},
     # sanitizer build: guard zones poisoned, a read one character outside a view is a crash
-    {"name": "asan", "src": "harness.cpp", "flags": ["-O1", "-g0", "-DTETL_ENABLE_CONTRACT_CHECKS=1"] + SAN},
+    # (char, wchar_t, char32_t only: halves its compile time; the thorough tier adds all five types)
+    {"name": "asan", "src": "harness.cpp",
+     "flags": ["-O1", "-g0", "-DTETL_ENABLE_CONTRACT_CHECKS=1", "-DVH_FEWER_TYPES"] + SAN},
+    {"name": "asan5", "src": "harness.cpp", "thorough_only": True,
+     "flags": ["-O1", "-g0", "-DTETL_ENABLE_CONTRACT_CHECKS=1"] + SAN},
 ]
 
 NPOS = 2**64 - 1
@@ -100,7 +110,7 @@ def gen_exhaustive(ck, hmax, nmax, out, rng, light=False, full=False):
             for p in positions(len(h)):
                 for fam in FAMS:
                     out.append(f"{fam}_p {ck} {hs} {ss} {p}")
-                    if full or p in (0, len(h), NPOS):
+                    if full or (p in (0, len(h), NPOS) and (light or rng.random() < 0.5)):
                         for k in range(0, len(s) + 1):
                             out.append(f"{fam}_pc {ck} {hs} {ss} {p} {k}")
             out.append(f"contains_p {ck} {hs} {ss}")
@@ -112,7 +122,8 @@ def gen_exhaustive(ck, hmax, nmax, out, rng, light=False, full=False):
     for a in A:
         for b in A:
             out.append(f"compare {ck} {L(a)} {L(b)}")
-            out.append(f"rel {ck} {L(a)} {L(b)}")
+            if full or len(a) <= 3:
+                out.append(f"rel {ck} {L(a)} {L(b)}")
     A3 = strings(al, 2 if light else 3)
     B3 = strings(al, 2)
     for a in A3:
@@ -123,7 +134,7 @@ def gen_exhaustive(ck, hmax, nmax, out, rng, light=False, full=False):
                     out.append(f"compare_3 {ck} {L(a)} {p1} {k1} {L(b)}")
                     if len(b) <= 1 or p1 in (0, len(a)):
                         out.append(f"compare_3p {ck} {L(a)} {p1} {k1} {L(b)}")
-                        for k2 in range(0, len(b) + 1):
+                        for k2 in range(0, len(b) + 1) if (full or p1 == 0) else ():
                             out.append(f"compare_4p {ck} {L(a)} {p1} {k1} {L(b)} {k2}")
     A5 = strings(al[:2] if light else al, 2)
     for a in A5:
@@ -134,7 +145,7 @@ def gen_exhaustive(ck, hmax, nmax, out, rng, light=False, full=False):
                 for k1 in pa:
                     for p2 in pb:
                         for k2 in pb:
-                            if not full and rng.random() < (0.7 if light else 0.5):
+                            if not full and rng.random() < 0.75:
                                 continue
                             out.append(f"compare_5 {ck} {L(a)} {p1} {k1} {L(b)} {p2} {k2}")
 
